@@ -633,6 +633,10 @@ fn expand_brace_range(tokens: &mut types::Tokens) {
         // safe to unwrap here, since the `is_match` above already validated
         let caps = re.captures(token).unwrap();
 
+        // the text around the braces is kept: a{1..3}b -> a1b a2b a3b
+        let head = token[..caps.get(0).unwrap().start()].to_string();
+        let tail = token[caps.get(0).unwrap().end()..].to_string();
+
         let start = match caps[1].to_string().parse::<i32>() {
             Ok(x) => x,
             Err(e) => {
@@ -671,12 +675,12 @@ fn expand_brace_range(tokens: &mut types::Tokens) {
         let mut n = start;
         if start > end {
             while n >= end {
-                result.push(format!("{}", n));
+                result.push(format!("{}{}{}", head, n, tail));
                 n -= incr;
             }
         } else {
             while n <= end {
-                result.push(format!("{}", n));
+                result.push(format!("{}{}{}", head, n, tail));
                 n += incr;
             }
         }
